@@ -535,7 +535,8 @@ func (root *Root) resolveField(
 					nv = av.Value
 				}
 				name, _ := nv.(string)
-				t = root.GetType(name)
+				// Only types, GetType() would also find a directive of that name.
+				t = root.types.get(name)
 				if t != nil {
 					fv, ea2 = root.resolve(t, vars, field, root.GetType("__Type"), depth)
 					ea = append(ea, ea2...)
